@@ -31,6 +31,7 @@ use crate::hll::RESIZE_DENOMINATOR;
 use crate::hll::RESIZE_NUMERATOR;
 use crate::hll::container::COUPON_EMPTY;
 use crate::hll::container::Container;
+use crate::hll::get_value;
 use crate::hll::serialization::COMPACT_FLAG_MASK;
 use crate::hll::serialization::CUR_MODE_SET;
 use crate::hll::serialization::HASH_SET_PREINTS;
@@ -142,7 +143,18 @@ impl HashSet {
                 }
                 continue;
             }
+            if get_value(coupon) == 0 {
+                return Err(Error::deserial(format!(
+                    "SET mode: coupon {coupon:#x} has value 0"
+                )));
+            }
             hash_set.update(coupon);
+        }
+        if hash_set.container.len() != coupon_count {
+            return Err(Error::deserial(format!(
+                "SET mode: image announces {coupon_count} coupons but holds {} distinct ones",
+                hash_set.container.len()
+            )));
         }
         if overloaded(hash_set.container.len()) {
             return Err(Error::deserial(format!(
